@@ -480,6 +480,119 @@ func c17StdinError(rc *RunCtx, t *simrt.Tape) {
 	}
 }
 
+// c18FileLimit: the disk fills up (or a quota is reached) after k bytes of any output file -
+// RLIMIT_FSIZE on the command, a real EFBIG from write(2) at any offset of a real file.  A
+// control run without limit tells what the outputs are; under the limit the command either
+// fails or has written exactly those outputs.
+func c18FileLimit(rc *RunCtx, t *simrt.Tape) {
+	name := []string{"obiconvert", "obiconvert", "obigrep", "obidistribute", "obicsv", "obiannotate"}[t.Choose(6)]
+	n := 5 + t.Choose(60)
+	fastq := name != "obidistribute" && t.Choose(2) == 1
+	recs := annotatedRecs(t, n, fastq)
+	p := drawParCfg(t, n)
+	var opts []string
+	format := "fastx"
+	switch name {
+	case "obiconvert":
+		switch t.Choose(4) {
+		case 1:
+			opts, format = []string{"--json-output"}, "json"
+		case 2:
+			opts, format = []string{"--fasta-output"}, "fasta"
+		case 3:
+			opts, format = []string{"-Z"}, "gzip"
+		}
+	case "obigrep":
+		opts = []string{"-l", "40", "--save-discarded", "discarded.fastx"}
+	case "obidistribute":
+		opts = []string{"-p", "part_%s.fasta", "-c", "sample"}
+		format = "parts"
+	case "obicsv":
+		opts, format = []string{"--ids", "--sequence", "-k", "sample"}, "csv"
+	case "obiannotate":
+		opts = []string{"--length"}
+	}
+	toStdout := name == "obicsv" || (name != "obidistribute" && t.Choose(3) == 2)
+	run := func(tag string, limit int) (*CmdOutcome, map[string][]byte, string) {
+		dir := filepath.Join(rc.Dir, fmt.Sprintf("q%d-%s", rc.Index, tag))
+		os.MkdirAll(dir, 0755)
+		in := filepath.Join(dir, "in.fastx")
+		if fastq {
+			os.WriteFile(in, fastqText(recs, true), 0644)
+		} else {
+			os.WriteFile(in, fastaText(recs, true), 0644)
+		}
+		args := append(p.cpuArgs(), opts...)
+		if !toStdout && name != "obidistribute" {
+			args = append(args, "-o", "out.fastx")
+		}
+		args = append(args, in)
+		spec := CmdSpec{Name: name, Dir: dir, Args: args, PoolPolicy: p.Pool, YieldDensity: p.Yield, StderrNull: true, FileSizeLimit: limit}
+		co := rc.RunCmd(spec)
+		return co, outputFiles(dir, map[string]bool{"in.fastx": true}), dir
+	}
+	ctl, want, cdir := run("control", 0)
+	defer cleanup(cdir)
+	if !rc.cmdMustSucceed(ctl, "C18/file-limit/control/"+name, name+" without any limit") {
+		return
+	}
+	largest := 0
+	for _, b := range want {
+		if len(b) > largest {
+			largest = len(b)
+		}
+	}
+	var k int
+	switch t.Choose(5) {
+	case 0:
+		k = 1
+	case 1:
+		k = 4096 + t.Choose(3) - 1
+	case 2:
+		k = largest - 1 - t.Choose(minI(64, maxI(largest-1, 1)))
+	default:
+		k = 1 + t.Choose(maxI(largest, 2))
+	}
+	if k < 1 {
+		k = 1
+	}
+	co, got, dir := run("limited", k)
+	defer cleanup(dir)
+	where := "-o"
+	if toStdout {
+		where = "stdout"
+	}
+	if name == "obidistribute" {
+		where = "parts"
+	}
+	rc.Out.Sample = map[string]any{"stage": "command", "command": name, "options": opts, "records": n, "file_size_limit": k, "largest_output": largest, "output_on": where, "config": p.String()}
+	rc.Out.Nontrivial = true
+	rc.Out.Key = fmt.Sprintf("cmd/file-limit/%s/%s/%s/%d/%d/%s", name, format, where, largest, k, co.Sig)
+	base := fmt.Sprintf("C18/command/%s/%s/%s/file-size-limit", name, format, where)
+	if largest > k {
+		rc.Fault(fmt.Sprintf("command_file_size_limit_%s_%s_%s", name, format, where))
+	} else {
+		rc.Probe("limit_above_every_output")
+	}
+	switch {
+	case co.TimedOut || co.StepCap:
+		rc.Inconclusive("%s", co.Describe())
+	case co.Deadlock:
+		rc.Violate(base+"/hang", "%s hangs when a write exceeds the file size limit: %s", name, co.Describe())
+	case co.Crashed || co.Failed():
+		if largest <= k {
+			rc.Violate(base+"/failed-below-the-limit", "%s failed although no output exceeds the limit of %d bytes (largest %d): %s", name, k, largest, co.Describe())
+			return
+		}
+		rc.Probe("command_reported")
+	default:
+		if d := diffOutputs(got, want); d != "" {
+			rc.Violate(base+"/silent-loss", "%s %v exited with status 0 under a file size limit of %d bytes, but its outputs are not those of the run without limit (largest output %d bytes):\n%s",
+				name, opts, k, largest, d)
+		}
+	}
+}
+
 // c18Command: a command whose output goes to /dev/full must exit non-zero.
 func c18Command(rc *RunCtx, t *simrt.Tape) {
 	name := []string{"obiconvert", "obiconvert", "obicsv", "obigrep", "obiannotate", "obicomplement", "obiuniq"}[t.Choose(7)]
